@@ -382,7 +382,8 @@ class Observable(
         if isinstance(key, slice):
             start, stop, step = key.start, key.stop, key.step
         else:
-            start, stop, step = key, key + 1, 1
+            # source[-1] is the last element: there is no stop after it
+            start, stop, step = key, (key + 1 if key != -1 else None), 1
 
         from ..operators._slice import slice_
 
